@@ -1,4 +1,7 @@
 import IrVerif.Props.C10
 open IrVerif.Path
 #print axioms C10_lexical
+#print axioms C10_real
+#print axioms C10_read_safe
+#print axioms C10_all_entry_points
 #print axioms C10_load_base_nonempty
